@@ -65,19 +65,28 @@ def screen(n=2, m=None):
 
 
 def lshape_prism():
-    """Non-convex closed surface: an L-shaped prism (height 1), 12 + 2*4 = 20 triangles... built by extrusion."""
-    poly = [(0, 0), (2, 0), (2, 1), (1, 1), (1, 2), (0, 2)]  # counter-clockwise L
+    """Non-convex closed surface: an L-shaped prism of height 1 made of three unit cubes; 28 well-shaped triangles."""
+    poly = [(0, 0), (1, 0), (2, 0), (2, 1), (1, 1), (1, 2), (0, 2), (0, 1)]  # counter-clockwise L, unit steps
     n = len(poly)
     v = [(x, y, 0.0) for x, y in poly] + [(x, y, 1.0) for x, y in poly]
     e = []
-    for i in range(n):  # side walls, outward for ccw polygon
+    for i in range(n):  # side walls, outward for a ccw polygon
         j = (i + 1) % n
         e += [(i, j, n + j), (i, n + j, n + i)]
-    caps = [(0, 1, 2), (0, 2, 3), (0, 3, 5), (3, 4, 5)]  # triangulation of the L (ccw)
+    # caps: squares [0,1]^2 = (0,1,4,7), [1,2]x[0,1] = (1,2,3,4), [0,1]x[1,2] = (7,4,5,6)
+    caps = [(0, 1, 4), (0, 4, 7), (1, 2, 3), (1, 3, 4), (7, 4, 5), (7, 5, 6)]
     for a, b, c in caps:
         e.append((a, c, b))              # bottom: normal -z
         e.append((n + a, n + b, n + c))  # top: normal +z
     return _arr(v, e)
+
+
+def dent_equator():
+    """Non-convex, 8 elements: octahedron with the equatorial vertex (1,0,0) pulled inward to (-0.2,0,0)."""
+    v, e = octahedron()
+    v = v.copy()
+    v[:, 0] = (-0.2, 0, 0)
+    return v, e
 
 
 def dented_octahedron():
@@ -174,4 +183,6 @@ def subcomplexes(e):
 
 
 CLOSED = {"tetrahedron": tetrahedron, "octahedron": octahedron, "cube12": cube12, "lshape": lshape_prism,
-          "dented": dented_octahedron, "two_components": two_components}
+          "dented": dented_octahedron, "dent_equator": dent_equator, "two_components": two_components}
+# coarse non-convex meshes: adjacent elements face each other across reflex edges, singular quadrature converges slowly
+HARD = {"lshape", "dented", "dent_equator", "torus6x4"}
